@@ -19,6 +19,10 @@ Open-handle programs: SFTPFile opened r+/w/w+/a/a+ with bufsize -1/0/1/2/16/4096
 write buffer, then truncate/chmod/chown/utime on the handle, more writes, close.  Oracle: the served file equals what
 a LOCAL file object gives for the same program; correspondence: the requests on the wire (WRITE offset/len before or
 after FSETSTAT) and the final file vs the model (lean/PV/Model/HandleProg.lean).
+Value space: every numeric argument includes 0 and the boundaries (ids 0, 1, 2^31-1, 2^32-1; mode 0; times 0), and the
+file's current state differs from what is requested (files start owned by a random non-zero uid:gid when the run is
+root).  The request must be a function of the caller's arguments only: exactly one SETSTAT / FSETSTAT per operation
+(no STAT first), carrying exactly those numbers (compared with the model's attribute block).
 Oracle (model-independent): a real session against tests._stub_sftp.StubSFTPServer; every operation is applied
 to the served file through SFTPClient (by path) or SFTPFile (by open handle) and to a twin file with
 os.chmod/os.chown/os.utime/os.truncate; contents, mode, owner, size (and integer times for utime) must be equal.
@@ -183,7 +187,8 @@ def handle_programs(ctx, lib, rng, A, n_prog, is_root):
                 elif kind == "utime":
                     mid = ("utime", (rng.randrange(1 << 31), rng.randrange(1 << 31)))
                 else:
-                    mid = ("chown", (rng.randrange(1 << 16), rng.randrange(1 << 16)) if is_root
+                    mid = ("chown", (rng.choice([0, 0, 1, 65534, (1 << 31) - 1, rng.randrange(1 << 16)]),
+                                     rng.choice([0, 0, 1, 1000, (1 << 32) - 1, rng.randrange(1 << 16)])) if is_root
                            else (os.geteuid(), os.getegid()))
                 if j == 0:
                     ops, mid = [("w", b"bbbb")], ("t", 16)
@@ -192,11 +197,14 @@ def handle_programs(ctx, lib, rng, A, n_prog, is_root):
                     ops.append(("t", rng.randrange(0, pending_end + 3000)))
                 name = "p%d" % j
                 served, twin = os.path.join(root, name), os.path.join(twin_root, name)
+                u0, g0 = (rng.randrange(1, 60000), rng.randrange(1, 60000)) if is_root else (os.geteuid(), os.getegid())
                 for p_ in (served, twin):
                     with open(p_, "wb") as f:
                         f.write(content0)
+                    if is_root:
+                        os.chown(p_, u0, g0)
                     os.chmod(p_, 0o644)
-                case = {"initial": "%d bytes" % len(content0) if len(content0) > 16 else content0.hex(), "open_mode": mode,
+                case = {"initial_owner": [u0, g0], "initial": "%d bytes" % len(content0) if len(content0) > 16 else content0.hex(), "open_mode": mode,
                         "bufsize": bufsize, "initial_size": len(content0),
                         "ops": [[k, len(v) if k == "w" else list(v) if isinstance(v, tuple) else v] for k, v in ops],
                         "program": [("write %s" % (v.hex() if len(v) <= 8 else "%d bytes" % len(v)) if k == "w" else
@@ -253,7 +261,8 @@ def handle_programs(ctx, lib, rng, A, n_prog, is_root):
                 else:
                     k_ = first_diff(want, got)
                     if k_ is not None:
-                        culprit = "truncate" if any(k == "t" for k, _ in ops) else kind
+                        culprit = {"uid": "chown", "gid": "chown", "mode": "chmod"}.get(
+                            k_, "truncate" if any(k == "t" for k, _ in ops) else kind)
                         ctx.fail("handle-%s-vs-buffered-writes:%s" % (culprit, "append" if append else "plain"), case,
                                  "%s differs: served %r, local file object %r" % (k_, show(got), show(want)))
                 # --- model: requests on the wire and the final file (line buffering and multi-request flushes excluded)
@@ -285,7 +294,7 @@ def run(ctx):
     import paramiko.sftp_server as srvmod
     from paramiko import SFTPAttributes as A
     from paramiko.message import Message
-    from paramiko.sftp import CMD_SETSTAT
+    from paramiko.sftp import CMD_FSETSTAT, CMD_SETSTAT
     from paramiko.sftp_si import SFTPServerInterface
     from pv import lib_sftploop as lib
     from pv.props.c33 import guarded_message, Runaway
@@ -349,6 +358,7 @@ def run(ctx):
             orig_request = client._request
 
             sent_paths = []
+            sent_types = []
 
             def recording_request(t, *args):
                 for it in args:
@@ -358,6 +368,7 @@ def run(ctx):
                         captured.append(m.asbytes())
                 if t == CMD_SETSTAT:
                     sent_paths.append(args[0])
+                sent_types.append(t)
                 return orig_request(t, *args)
 
             client._request = recording_request
@@ -406,6 +417,7 @@ def run(ctx):
                 intended = posixpath.normpath(posixpath.join(cwd or "/", pathform))
                 if intended != posixpath.join(tdir, name):
                     raise InfraError("generator: %r from %r does not name %r" % (pathform, cwd, tdir))
+                u0, g0 = (rng.randrange(1, 60000), rng.randrange(1, 60000)) if is_root else (os.geteuid(), os.getegid())
                 copies = {}
                 for d_ in DIRS:
                     data_ = content if d_ == tdir else rng.randbytes(rng.choice([size, size + 3, 7]))
@@ -414,6 +426,8 @@ def run(ctx):
                         p = os.path.join(base, d_.strip("/"), name)
                         with open(p, "wb") as f:
                             f.write(data_)
+                        if is_root:  # the file's current owner must differ from (0, 0) and from what is requested
+                            os.chown(p, u0, g0)
                         os.chmod(p, mode0)
                         os.utime(p, t0)
                 served = os.path.join(root, tdir.strip("/"), name)
@@ -423,19 +437,23 @@ def run(ctx):
                     kind = "truncate"
                 by_handle = rng.random() < 0.5 and kind != "combo"
                 if kind == "chmod":
-                    mode = rng.choice([0, 0o600, 0o644, 0o755, 0o4755, 0o2750, 0o1777, 0o7777, rng.randrange(0o10000)])
+                    mode = rng.choice([0, 0, 0o600, 0o644, 0o755, 0o4755, 0o2750, 0o1777, 0o7777, rng.randrange(0o10000)])
                     if not is_root:
                         mode |= 0o600
+                    if mode == mode0:  # the requested value differs from the file's current one
+                        mode = 0 if is_root else 0o700
                     args, oscall, model_op = (mode,), lambda p: os.chmod(p, mode), "op chmod %d" % mode
                 elif kind == "chown":
-                    if is_root:
-                        uid, gid = rng.choice([0, 1, 1000, 65534, rng.randrange(1 << 16)]), rng.choice([0, 5, 1000, rng.randrange(1 << 16)])
-                    else:
-                        uid, gid = os.geteuid(), os.getegid()
+                    # every id value incl. 0 and the 32-bit boundaries; for a non-root run the call fails on both
+                    # sides alike, but the request the client sends is still compared with the model
+                    uid = rng.choice([0, 0, 1, 1000, 65534, (1 << 31) - 1, (1 << 32) - 1, rng.randrange(1 << 16), rng.randrange(1 << 32)] + [u0])
+                    gid = rng.choice([0, 0, 1, 1000, 65534, (1 << 31) - 1, (1 << 32) - 1, rng.randrange(1 << 16), rng.randrange(1 << 32)] + [g0])
+                    if (uid, gid) == (u0, g0):
+                        uid = 0
                     args, oscall, model_op = (uid, gid), lambda p: os.chown(p, uid, gid), "op chown %d %d" % (uid, gid)
                 elif kind == "utime":
-                    at = rng.choice([0, 1, 1 << 31, (1 << 32) - 1, rng.randrange(1 << 32)])
-                    mt = rng.choice([0, 1, 1 << 31, (1 << 32) - 1, rng.randrange(1 << 32)])
+                    at = rng.choice([0, 0, 1, (1 << 31) - 1, 1 << 31, (1 << 32) - 1, rng.randrange(1 << 32)])
+                    mt = rng.choice([0, 0, 1, (1 << 31) - 1, 1 << 31, (1 << 32) - 1, rng.randrange(1 << 32)])
                     if rng.random() < 0.2:
                         at, mt = min(at, (1 << 32) - 2) + 0.75, min(mt, (1 << 32) - 2) + 0.25
                     args, oscall = ((at, mt),), lambda p: os.utime(p, (at, mt))
@@ -461,10 +479,13 @@ def run(ctx):
                         if "size" in groups:
                             os.truncate(p, n)
                 case = {"op": kind, "args": list(args), "route": "handle" if by_handle else "path", "file_size": size,
-                        "initial_mode": oct(mode0), "cwd": cwd, "path": pathform, "names": intended}
+                        "initial_mode": oct(mode0), "initial_owner": [u0, g0], "cwd": cwd, "path": pathform,
+                        "names": intended}
                 # --- through SFTP
                 del captured[:]
                 del sent_paths[:]
+                del sent_types[:]
+                op_types = None
                 sftp_err = None
                 try:
                     if kind == "combo":
@@ -479,12 +500,15 @@ def run(ctx):
                     elif by_handle:
                         fh = client.open(pathform, "r+")
                         del captured[:]  # OPEN carries an (empty) attribute block of its own
+                        del sent_types[:]
                         try:
                             getattr(fh, kind)(*args)
+                            op_types = list(sent_types)
                         finally:
                             fh.close()
                     else:
                         getattr(client, kind)(pathform, *args)
+                        op_types = list(sent_types)
                 except IOError as e:
                     if isinstance(e, TimeoutError):
                         raise InfraError("SFTP request timed out")
@@ -530,6 +554,15 @@ def run(ctx):
                     op_meta.append((case, "%s | %s" % (hx(captured[0]), recorded_set_file_attr(srvmod, attr))))
                 elif model_op is not None:
                     ctx.disagree("client request capture", case, "one attribute block", "%d blocks" % len(captured))
+                # --- the request is a function of the caller's arguments only: exactly one SETSTAT / FSETSTAT goes out,
+                # nothing is asked of the server first (model: byPath / endToEnd take no file state)
+                if op_types is not None and kind != "combo":
+                    expect = [CMD_FSETSTAT if by_handle else CMD_SETSTAT]
+                    ctx.dist("request-sequence-checked")
+                    if op_types != expect:
+                        ctx.disagree("requests sent for one attribute operation", case,
+                                     "exactly one %s" % ("FSETSTAT" if by_handle else "SETSTAT"),
+                                     "request types %r" % (op_types,))
                 # --- correspondence (b'): the path a by-path request names (client cwd state), and its canonical form
                 if not by_handle and kind != "combo":
                     if len(sent_paths) == 1:
@@ -615,6 +648,8 @@ def replay_handle_program(d):
         for p_ in (served, twin):
             with open(p_, "wb") as f:
                 f.write(b"A" * d["initial_size"])
+            if os.geteuid() == 0 and d.get("initial_owner"):
+                os.chown(p_, *d["initial_owner"])
             os.chmod(p_, 0o644)
         lmode = {"r+": "r+b", "r+b": "r+b", "w": "wb", "w+": "w+b", "a": "ab", "ab": "ab", "a+": "a+b"}[d["open_mode"]]
         with lib.Session(root=root) as s:
@@ -666,6 +701,8 @@ def replay(data):
                 p = os.path.join(base, d_.strip("/"), name)
                 with open(p, "wb") as f:
                     f.write(content)
+                if os.geteuid() == 0 and d.get("initial_owner"):
+                    os.chown(p, *d["initial_owner"])
                 os.chmod(p, int(d.get("initial_mode", "0o644"), 8))
                 os.utime(p, (1000, 2000))
         args = [tuple(a) if isinstance(a, list) else a for a in d["args"]]
